@@ -2,6 +2,7 @@
 from __future__ import annotations
 
 import itertools
+import re
 
 from vt import util
 from vt.gen import jast
@@ -28,10 +29,11 @@ BUDGET_S = {"quick": 30, "thorough": 900}
 FLOORS = {
     "quick": {"evaluations": 20000, "distinct": 10000,
               "counters": {"template_side": 10000, "python_side": 5000, "expect_typeerror": 2000,
-                           "default_used": 2000}},
+                           "default_used": 2000, "hostile_name_renders": 5000}},
     "thorough": {"evaluations": 150000, "distinct": 60000,
                  "counters": {"template_side": 100000, "python_side": 30000,
-                              "expect_typeerror": 20000, "default_used": 20000}},
+                              "expect_typeerror": 20000, "default_used": 20000,
+                              "hostile_name_renders": 50000}},
 }
 
 
@@ -158,6 +160,17 @@ def prelude(sig, own_reading="outer"):
     return pre + [make_macro(sig), ["set", "ov", C(78)]]
 
 
+HOSTILE = [{"p1": "obj", "p2": "self", "p3": "args", "p4": "func", "zz": "name"},
+           {"p1": "self", "p2": "context", "p3": "value", "p4": "environment", "zz": "eval_ctx"},
+           {"p1": "arguments", "p2": "autoescape", "p3": "self", "p4": "cls", "zz": "obj"}]
+
+
+def rename_source(text, mp):
+    import re
+
+    return re.sub(r"\b(p[1-4]|zz)\b", lambda m: mp[m.group(1)], text)
+
+
 def check_sig(ctx, sig, shapes, envs):
     pre = prelude(sig)
     branches = []
@@ -168,6 +181,11 @@ def check_sig(ctx, sig, shapes, envs):
     tmpls = {}
     for en, env in envs.items():
         tmpls[en] = env.from_string(src)
+    # the same template with parameter and keyword names that also name parameters of the
+    # engine's own call machinery: consistent renaming never changes how arguments bind
+    hostile = HOSTILE[(sig[0] + sig[1] + sig[2]) % len(HOSTILE)]
+    hsrc = rename_source(src, hostile)
+    htmpl = util.capture(lambda: envs["default"].from_string(hsrc))
     pymod = tmpls["default"].module
     for i, sh in enumerate(shapes):
         one = pre + [call_ast(sig, sh)]
@@ -200,6 +218,23 @@ def check_sig(ctx, sig, shapes, envs):
             bad = compare_any(alts, eo)
             if bad:
                 ctx.violation(classify(sig, sh, mo, eo), f"{bad} | {jast.ps(one)!r} env={en}", case)
+        if htmpl.ok:
+            eo = util.capture(lambda: htmpl.value.render(sel=i))
+            base = util.capture(lambda: tmpls["default"].render(sel=i))
+            ctx.ev()
+            ctx.count("hostile_name_renders")
+            # the only names that reach the output are unknown keywords printed from kwargs
+            # (kwargs are printed sorted by name: compare that part as a set)
+            ksort = lambda t: re.sub(r"K((?:\w+=[^;]*;)+)",   # noqa: E731
+                                     lambda m: "K" + "".join(sorted(re.findall(r"\w+=[^;]*;", m.group(1)))), t)
+            want = (("ok", ksort(re.sub(r"p[1-4]|zz", lambda m: hostile[m.group(0)], base.value))) if base.ok
+                    else ("exc", type(base.exc).__name__))
+            got = ("ok", ksort(eo.value)) if eo.ok else ("exc", type(eo.exc).__name__)
+            if want != got:
+                ctx.violation("bind:renamed-to-engine-parameter-names:" + "+".join(sorted(set(hostile.values()))),
+                              f"{got!r} after renaming {hostile}, {want!r} expected | {hsrc!r} sel={i}", case)
+        elif i == 0:
+            ctx.violation("bind:renamed-to-engine-parameter-names:compile", f"{htmpl!r} | {hsrc!r}", case)
         # Python side: only shapes expressible without a call block
         if not sh[3]:
             a, kw = py_args(sig, sh)
